@@ -199,6 +199,7 @@ func main() {
 			defer f.Close()
 		}
 	}
+	beatHook = func() { fmt.Fprintf(out, "H %d\n", r.beats) }
 	g := 0
 	stopped := false
 	for _, s := range c.Scenarios {
@@ -232,6 +233,9 @@ func main() {
 				fmt.Fprintf(os.Stderr, "case %d (%s #%d): fails=%d\n", g, s.Name, i, r.NFails-before)
 			}
 		}
+	}
+	if guardStarved > 0 {
+		r.MarkIncomplete(fmt.Sprintf("%d child-process probes never received enough processor time for a verdict (machine loaded); those inputs were not judged", guardStarved))
 	}
 	r.States = len(r.hashes)
 	b, _ := json.Marshal(r)
